@@ -447,6 +447,28 @@ fn run_inner(ctx: &Ctx, dump_dir: &Path, torn_dir: &Path) -> i32 {
             );
         }
     }
+    // ---- the same with a trace-level logger installed (log macros evaluate their arguments only then): crash points of the
+    // first tuples, a round trip of each
+    {
+        let mut st2 = TornStats { prefixes: 0, err: 0, panics: 0, ok_same: 0, ok_other: 0, first_panic: None, first_other: None, first_oksame: None };
+        for p in cp_tuples.iter().take(6) {
+            let r = crate::common::with_trace_logging(|| (crash_points(dump_dir, torn_dir, p, &mut st2), round_trip(dump_dir, p)));
+            if let (_, RT::Bad(w)) = &r {
+                ctx.violation("round-trip:logging", &format!("with a trace-level logger installed, {:?}: {}", p, w), json!({"kind": "logging", "params": p_json(p)}));
+            }
+            if st2.panics > 0 || st2.ok_same + st2.ok_other > 0 {
+                let what = match (&st2.first_panic, &st2.first_other) {
+                    (Some((len, total, msg)), _) => format!("aborts (panic) at prefix length {} of {} bytes: {}", len, total, msg),
+                    (None, Some((l, _, w))) => format!("returns Ok at prefix length {}: {}", l, w),
+                    _ => "returns Ok on a strict prefix".to_string(),
+                };
+                ctx.violation("torn-file:logging", &format!("with a trace-level logger installed, reload_json on a file cut short {} ({:?})", what, p), json!({"kind": "logging", "params": p_json(p)}));
+                break;
+            }
+        }
+        st.prefixes += st2.prefixes;
+        st.err += st2.err;
+    }
     ctx.sample(json!({"crash_point_case": {"params": p_json(&cp_tuples[1]), "file_bytes": file_lens.get(1), "every_prefix_length_0_to_len_minus_1_reloaded": true, "outcome_counts": {"err": st.err, "panic": st.panics, "ok": st.ok_same + st.ok_other}}}));
     // ---- missing file / directory in place of the file
     let mut env_cases = 0u64;
@@ -489,7 +511,7 @@ fn run_inner(ctx: &Ctx, dump_dir: &Path, torn_dir: &Path) -> i32 {
     let coverage = json!({
         "evaluations": n_rt + st.prefixes + env_cases + overwrite_checked,
         "distinct_nontrivial": distinct.len() as u64 + st.prefixes,
-        "rule": "round trip: cross product of an 18-float x 9-integer boundary alphabet plus seeded bit-pattern tuples, distinct by (b,m,a,q) bit patterns; crash points: for each of the crash tuples EVERY strict byte prefix (0..len-1) of the real dumped file is written and reloaded, each prefix is a distinct non-trivial case; plus missing file, missing directory, directory in place of the file, dump histories in one directory (long over short and back; all ordered pairs over a 288-tuple neighbour alphabet - fields a few ulp or a tiny absolute amount apart - that differ in one field, a fifth (thorough: all) of the other pairs, all triples over 8 values of a): the reload returns the last tuple dumped",
+        "rule": "round trip: cross product of an 18-float x 9-integer boundary alphabet plus seeded bit-pattern tuples, distinct by (b,m,a,q) bit patterns; crash points: for each of the crash tuples EVERY strict byte prefix (0..len-1) of the real dumped file is written and reloaded, each prefix is a distinct non-trivial case; plus missing file, missing directory, directory in place of the file, dump histories in one directory (long over short and back; all ordered pairs over a 288-tuple neighbour alphabet - fields a few ulp or a tiny absolute amount apart - that differ in one field, a fifth (thorough: all) of the other pairs, all triples over 8 values of a): the reload returns the last tuple dumped; the crash points and a round trip of 6 tuples are repeated with a trace-level logger installed",
         "samples": [
             {"dumped_file": sample_file},
             {"crash_point": {"params": p_json(&cp_tuples[0]), "prefix_len": 17}},
@@ -567,6 +589,7 @@ pub fn replay(_ctx: &Ctx, case: &Value) -> Result<(bool, String), String> {
                 let o = reload_outcome(&dump_dir, &hist[2]);
                 Ok((o != Torn::OkSame, format!("{:?}", o)))
             }
+            Some("logging") => Err("re-derived by running the check itself".into()),
             _ => Err("kind".into()),
         }
     })();
